@@ -80,6 +80,12 @@ var timeUnits = map[string]int64{
 	"Nanosecond": 1, "Microsecond": 1e3, "Millisecond": 1e6, "Second": 1e9, "Minute": 60e9, "Hour": 3600e9,
 }
 
+// stdSizes: standard-library size constants that package-level constants refer to.
+var stdSizes = map[string]int64{
+	"sha1.Size": 20, "sha1.BlockSize": 64, "sha256.Size": 32, "sha256.BlockSize": 64,
+	"sha512.Size": 64, "md5.Size": 16, "aes.BlockSize": 16,
+}
+
 func loadConsts(dir string) *pkgConsts {
 	pc := &pkgConsts{vals: map[string]constant.Value{}}
 	pkgs, err := parser.ParseDir(fset, dir, func(fi os.FileInfo) bool {
@@ -166,6 +172,9 @@ func (pc *pkgConsts) eval(e ast.Expr, iota int64) (constant.Value, bool) {
 				if u, ok := timeUnits[x.Sel.Name]; ok {
 					return constant.MakeInt64(u), true
 				}
+			}
+			if v, ok := stdSizes[id.Name+"."+x.Sel.Name]; ok {
+				return constant.MakeInt64(v), true
 			}
 			if id.Name == "math" {
 				switch x.Sel.Name {
